@@ -11,9 +11,11 @@
 (***************************************************************************)
 EXTENDS Integers, Sequences, FiniteSets
 
-F(f, v) == CASE f.kind = "add" -> v + f.c
-             [] f.kind = "mul" -> v * f.c
-             [] f.kind = "set" -> f.c
+(* the new value of column c: += c, *= c, = c, or (several columns assigned a list of values at once) the value given for c *)
+F(f, v, c) == CASE f.kind = "add" -> v + f.c
+                [] f.kind = "mul" -> v * f.c
+                [] f.kind = "set" -> f.c
+                [] f.kind = "setcols" -> f.vals[c]
 
 RECURSIVE Base(_, _, _)
 (* number of stacked rows before list L *)
@@ -35,7 +37,7 @@ WriteThrough(pre, post, inc, cols, f, sel(_, _)) ==
               /\ b.x = a.x
               /\ DOMAIN b.v = DOMAIN a.v
               /\ \A c \in DOMAIN a.v :
-                    b.v[c] = IF L \in inc /\ c \in cols /\ sel(L, k) THEN F(f, a.v[c]) ELSE a.v[c]
+                    b.v[c] = IF L \in inc /\ c \in cols /\ sel(L, k) THEN F(f, a.v[c], c) ELSE a.v[c]
 
 SetColRef(pre, post, inc, p, f) ==
     LET all(L, k) == TRUE IN WriteThrough(pre, post, inc, {p}, f, all)
